@@ -19,7 +19,7 @@ func init() {
 			"escaped path and raw query and never reads the fragment (nor URL.String/Redacted); the method/Range gate is false for non-GET and for Range and dominates every " +
 			"store access; every key on the exchange comes from the one key function; default ports are http->80, https->443 and a port is elided only when equal to the " +
 			"scheme's default; escapes are re-encoded with an upper-case alphabet.",
-		NotDecided: "injectivity of the authority serialisation (the pinned IPv6-literal collision http://[::1]:8080/ vs http://[::1:8080]/ is documented, not detected); dot-segment handling inside net/url.",
+		NotDecided: "injectivity of the authority serialisation beyond the bracket rule C03.7 (a host whose IP-literal brackets were stripped is re-bracketed before it is joined with ':port'); dot-segment handling inside net/url.",
 		Rules: []Rule{
 			{ID: "C03.1", Desc: "unreserved set exact", Run: ruleC03_1, MinSites: 1},
 			{ID: "C03.2", Desc: "key dependence: scheme, host, path, query; not fragment", Run: ruleC03_2, MinSites: 4},
@@ -27,6 +27,7 @@ func init() {
 			{ID: "C03.4", Desc: "one key function for lookup, store and invalidation", Run: func(c *Ctx) { ruleOneKeyer(c, "C03.4") }, MinSites: 2},
 			{ID: "C03.5", Desc: "default ports", Run: ruleC03_5, MinSites: 2},
 			{ID: "C03.6", Desc: "upper-case hex alphabet", Run: ruleC03_6, MinSites: 1},
+			{ID: "C03.7", Desc: "an IP-literal host keeps (or regains) its brackets before ':port' is appended", Run: ruleC03_7, MinSites: 1},
 		},
 	})
 }
@@ -155,6 +156,8 @@ func ruleC03_2(c *Ctx) {
 	// required dependences of the returned key
 	ret := firstReturn(uk, 0)
 	deps := map[string]bool{}
+	var badRet []string
+	nRet := 0
 	prLive := c.An.Prune(uk, func(*Atom) (bool, bool) { return false, false })
 	for _, b := range uk.Blocks {
 		if !prLive.LiveBlock[b.Index] {
@@ -168,7 +171,7 @@ func ruleC03_2(c *Ctx) {
 			_ = s
 			continue
 		}
-		// skip the opaque early return
+		own := map[string]bool{}
 		c.P.TraceBack(r.Results[0], TraceOpts{ThroughOps: true, ThroughExtern: true, NoParams: true, NoHeapFields: true}, func(v ssa.Value, _ []int) bool {
 			if in, ok := v.(ssa.Instruction); ok && in.Parent() == uk && in.Block() != nil && !prLive.LiveBlock[in.Block().Index] {
 				return false // computed in dead code
@@ -176,19 +179,58 @@ func ruleC03_2(c *Ctx) {
 			switch y := v.(type) {
 			case *ssa.FieldAddr:
 				if ptrTo(y.X.Type(), "net/url", "URL") {
-					deps["field:"+fieldName(y.X.Type(), y.Field)] = true
+					own["field:"+fieldName(y.X.Type(), y.Field)] = true
 				}
 			case *ssa.UnOp:
 				if fa, ok := y.X.(*ssa.FieldAddr); ok && ptrTo(fa.X.Type(), "net/url", "URL") {
-					deps["field:"+fieldName(fa.X.Type(), fa.Field)] = true
+					own["field:"+fieldName(fa.X.Type(), fa.Field)] = true
 				}
 			case *ssa.Call:
 				if sc := y.Call.StaticCallee(); sc != nil && sc.Signature.Recv() != nil && ptrTo(sc.Signature.Recv().Type(), "net/url", "URL") {
-					deps["method:"+sc.Name()] = true
+					own["method:"+sc.Name()] = true
 				}
 			}
 			return true
 		})
+		for k := range own {
+			deps[k] = true
+		}
+		// every single returned key identifies the origin: it depends on scheme and authority, unless it is returned
+		// only for a URL without authority (`Host == ""`: nothing an http transport can send)
+		noAuthority := false
+		for _, dc := range dominatingConds(b) {
+			for _, lf := range condLeaves(dc.cond, dc.onTrue) {
+				bo, ok := lf.v.(*ssa.BinOp)
+				if !ok || (bo.Op != token.EQL && bo.Op != token.NEQ) {
+					continue
+				}
+				isHost := func(v ssa.Value) bool {
+					if u, ok := v.(*ssa.UnOp); ok {
+						if fa, ok := u.X.(*ssa.FieldAddr); ok && ptrTo(fa.X.Type(), "net/url", "URL") && fieldName(fa.X.Type(), fa.Field) == "Host" {
+							return true
+						}
+					}
+					return false
+				}
+				isEmpty := func(v ssa.Value) bool { s, ok := constStr(v); return ok && s == "" }
+				if (isHost(bo.X) && isEmpty(bo.Y) || isHost(bo.Y) && isEmpty(bo.X)) && (bo.Op == token.EQL) == lf.val {
+					noAuthority = true
+				}
+			}
+		}
+		nRet++
+		if !noAuthority {
+			hasScheme := own["field:Scheme"]
+			hasHost := own["field:Host"] || own["method:Hostname"]
+			if !hasScheme || !hasHost {
+				badRet = append(badRet, fmt.Sprintf("%s: this return's key depends on %v only", c.P.InstrPos(r), sortedKeys(own)))
+			}
+		}
+	}
+	if len(badRet) > 0 {
+		c.Fail("C03.2", "every-key-names-the-origin", "every returned key depends on scheme and authority (unless the URL has no authority)", strings.Join(badRet, "; ")+"; requests to different hosts with the same opaque request-target share an entry")
+	} else if nRet > 0 {
+		c.Pass("C03.2", "every-key-names-the-origin", "every returned key depends on scheme and authority (unless the URL has no authority)", fmt.Sprintf("%s: %d returns", c.P.ShortName(uk), nRet))
 	}
 	_ = ret
 	need := []struct {
@@ -324,16 +366,18 @@ func ruleC03_5(c *Ctx) {
 	}
 	// the port is elided only when it equals the default: the concatenation ":"+port is dominated by port != default
 	var concat *ssa.BinOp
-	instrsOf(uk, func(in ssa.Instruction) {
-		if b, ok := in.(*ssa.BinOp); ok && b.Op == token.ADD {
-			if s, ok := constStr(b.Y); ok && s == ":" {
-				concat = b
+	for _, g := range c.reachableFrom(uk) { // the key function or a helper it delegates the authority to
+		instrsOf(g, func(in ssa.Instruction) {
+			if b, ok := in.(*ssa.BinOp); ok && b.Op == token.ADD {
+				if s, ok := constStr(b.Y); ok && s == ":" {
+					concat = b
+				}
+				if s, ok := constStr(b.X); ok && s == ":" {
+					concat = b
+				}
 			}
-			if s, ok := constStr(b.X); ok && s == ":" {
-				concat = b
-			}
-		}
-	})
+		})
+	}
 	desc2 := "a port is appended unless it equals the scheme's default port"
 	if concat == nil {
 		c.Undecided("C03.5", "port-elision", desc2, "no `\":\" + port` concatenation in "+c.P.ShortName(uk))
@@ -400,4 +444,106 @@ func isURLKeyerMethod(c *ssa.CallCommon) bool {
 		return false
 	}
 	return ptrTo(sig.Params().At(0).Type(), "net/url", "URL") && isStringType(sig.Results().At(0).Type())
+}
+
+// ruleC03_7: the key joins host and port with ':'. An IPv6 literal contains ':' itself, so the join is only decodable
+// when the literal keeps its brackets. If a value that had the brackets removed (URL.Hostname, or a slice/trim guarded by a
+// test for "[" / "]") flows into the key, some concatenation with a "[" constant must lie on the way to the result.
+func ruleC03_7(c *Ctx) {
+	if !c.Need("C03.7", "urlKey") {
+		return
+	}
+	uk := c.A.F("urlKey")
+	desc := "a host whose IP-literal brackets were removed is re-bracketed before it is joined with ':port' (http://[::1]:8080/ vs http://[::1:8080]/)"
+	bracketConst := func(v ssa.Value) bool {
+		s, ok := constStr(v)
+		return ok && (strings.Contains(s, "[") || strings.Contains(s, "]"))
+	}
+	isBracketTest := func(v ssa.Value) bool {
+		call, ok := v.(*ssa.Call)
+		if !ok {
+			return false
+		}
+		if callIsPkgFunc(&call.Call, "strings", "HasPrefix") || callIsPkgFunc(&call.Call, "strings", "HasSuffix") || callIsPkgFunc(&call.Call, "strings", "Contains") || callIsPkgFunc(&call.Call, "strings", "ContainsAny") || callIsPkgFunc(&call.Call, "strings", "IndexByte") {
+			return len(call.Call.Args) == 2 && (bracketConst(call.Call.Args[1]) || isByteConst(call.Call.Args[1], '[') || isByteConst(call.Call.Args[1], ']'))
+		}
+		return false
+	}
+	var sources []string
+	rebracket, colonJoin := false, false
+	var rets []ssa.Value
+	instrsOf(uk, func(in ssa.Instruction) {
+		if r, ok := in.(*ssa.Return); ok && len(r.Results) > 0 {
+			rets = append(rets, r.Results[0])
+		}
+	})
+	for _, rv := range rets {
+		c.P.TraceBack(rv, TraceOpts{ThroughOps: true, ThroughExtern: true, NoHeapFields: true}, func(x ssa.Value, _ []int) bool {
+			switch y := x.(type) {
+			case *ssa.Call:
+				if callIsMethod(&y.Call, "net/url", "URL", "Hostname") {
+					sources = append(sources, c.P.InstrPos(y)+": URL.Hostname()")
+				}
+				if callIsPkgFunc(&y.Call, "net", "JoinHostPort") {
+					rebracket = true
+				}
+				for _, name := range []string{"Trim", "TrimPrefix", "TrimSuffix", "TrimLeft", "TrimRight"} {
+					if callIsPkgFunc(&y.Call, "strings", name) && len(y.Call.Args) == 2 && bracketConst(y.Call.Args[1]) {
+						sources = append(sources, c.P.InstrPos(y)+": strings."+name+" of a bracket")
+					}
+				}
+			case *ssa.Slice:
+				if !isStringType(y.X.Type()) {
+					break
+				}
+				for _, dc := range dominatingConds(y.Block()) {
+					for _, lf := range condLeaves(dc.cond, dc.onTrue) {
+						v := lf.v
+						if b, ok := v.(*ssa.BinOp); ok {
+							// s[0] == '['
+							if isByteConst(b.X, '[') || isByteConst(b.Y, '[') || isByteConst(b.X, ']') || isByteConst(b.Y, ']') {
+								sources = append(sources, c.P.InstrPos(y)+": slice under a bracket test")
+							}
+							// IndexByte(...) != -1 etc.
+							if isBracketTest(b.X) || isBracketTest(b.Y) {
+								sources = append(sources, c.P.InstrPos(y)+": slice under a bracket test")
+							}
+						}
+						if isBracketTest(v) && lf.val {
+							sources = append(sources, c.P.InstrPos(y)+": slice under a bracket test")
+						}
+					}
+				}
+			case *ssa.BinOp:
+				if y.Op == token.ADD {
+					if bracketConst(y.X) || bracketConst(y.Y) {
+						rebracket = true
+					}
+					for _, o := range []ssa.Value{y.X, y.Y} {
+						if s, ok := constStr(o); ok && s == ":" {
+							colonJoin = true
+						}
+					}
+				}
+			}
+			return true
+		})
+	}
+	sort.Strings(sources)
+	sources = uniqStrings(sources)
+	switch {
+	case !colonJoin:
+		c.Pass("C03.7", "authority-brackets", desc, c.P.ShortName(uk)+": the key does not join host and port with a \":\" constant (authority taken whole)")
+	case len(sources) == 0:
+		c.Pass("C03.7", "authority-brackets", desc, c.P.ShortName(uk)+": no bracket-stripped host value flows into the key")
+	case rebracket:
+		c.Pass("C03.7", "authority-brackets", desc, append([]string{c.P.ShortName(uk) + ": stripped host is re-bracketed"}, sources...)...)
+	default:
+		c.Fail("C03.7", "authority-brackets", desc, c.P.ShortName(uk)+": the bracket-stripped host ("+sources[0]+") is joined with \":\"+port and never re-bracketed; http://[::1]:8080/ and http://[::1:8080]/ share one key", sources...)
+	}
+}
+
+func isByteConst(v ssa.Value, b byte) bool {
+	k, ok := constInt(v)
+	return ok && k == int64(b)
 }
